@@ -1,14 +1,21 @@
 import WebrtcVerif.Base.Wire
 import WebrtcVerif.Model.SampleTrack
 /-! Driver handler for C28 (TrackLocalStaticSample.WriteSample).
-  op:   `seq <payloader> <clockRate> <ts0> <seq0> <nops> <op>*`
+  op:   `seq <payloader> <clockRate> <ts0|r> <seq0|r> <nops> <op>*`
         payloader = `opus` | `g7` | `vp8` | `c<k>`      (c<k>: the harness's own payloader, chunks of k bytes; c0: none)
+        ts0 / seq0 = a number: the track is created with WithRTPTimestamp / WithRTPSequenceNumber;
+                     `r`: without that option (pion/rtp picks a random initial value)
         op        = `S <durNanos> <dataLen> <prevDropped>`   WriteSample
                   | `P <k>`                                  GeneratePadding(k)
                   | `B` | `U`                                Bind a further context | Unbind the latest further context
-  out:  one segment per op, separated by `|`:
-        S, P → `<n> {<seq> <ts>}^n`    the packets the first bound writer received, in order
-        B → `b`, U → `u`
+                  | `R`                                      Unbind the observed context and Bind it again
+  out:  `first <seq|r|-> <ts|r|->` then one segment per op, all separated by `|`:
+        first: sequence number / timestamp of the first packet of the history when the initial value was
+               fixed by the option, `r` when it was random, `-` when the history produced no packet
+        S, P → `<n> {<seq> <ts>}^n`    the packets the observed writer received, in order, each value RELATIVE to
+                                       the first packet of the history (mod 2^16 / mod 2^32)
+        B → `b`, U → `u`, R → `rb`
+  (Props/C28.C28_initial_values_shift: the relative values do not depend on the initial ones.)
   `run` evaluates the model with the binary64 arithmetic (`SampleTrack.f64`) — what the Go code computes,
   bit for bit — so the comparison with the implementation is exact.  `judge` evaluates the property
   against exact integer arithmetic with the property's own tolerance: each sample's timestamp within one
@@ -23,6 +30,7 @@ inductive POp
   | padding (k : Nat)
   | bind
   | unbind
+  | rebindPrimary
 
 def parsePayloader (s : String) : Option Payloader :=
   if s == "opus" then some .opus
@@ -44,43 +52,61 @@ def parseOps : Nat → List String → Option (List POp)
     pure (.padding k :: tl)
   | n + 1, "B" :: rest => do let tl ← parseOps n rest; pure (.bind :: tl)
   | n + 1, "U" :: rest => do let tl ← parseOps n rest; pure (.unbind :: tl)
+  | n + 1, "R" :: rest => do let tl ← parseOps n rest; pure (.rebindPrimary :: tl)
   | _, _ => none
 
 structure Hist where
   pay : Payloader
   rate : Nat
-  ts0 : Nat
-  seq0 : Nat
+  /-- `none`: no WithRTPTimestamp / WithRTPSequenceNumber — the initial value is pion/rtp's random choice -/
+  ts0 : Option Nat
+  seq0 : Option Nat
   ops : List POp
 
 def parseHist (args : List String) : Option Hist :=
   match args with
   | "seq" :: pay :: rate :: ts0 :: seq0 :: n :: rest => do
     let pay ← parsePayloader pay
-    let rate ← rate.toNat?; let ts0 ← ts0.toNat?; let seq0 ← seq0.toNat?; let n ← n.toNat?
+    let rate ← rate.toNat?; let n ← n.toNat?
+    let ts0 ← if ts0 == "r" then some none else ts0.toNat?.map some
+    let seq0 ← if seq0 == "r" then some none else seq0.toNat?.map some
     let ops ← parseOps n rest
     pure { pay, rate, ts0, seq0, ops }
   | _ => none
 
-def showPkts (ps : List Pkt) : String :=
-  String.intercalate " " (toString ps.length :: (ps.map (fun p => s!"{p.seq} {p.ts}")))
+/-- packets relative to the first packet `f` of the history -/
+def showPkts (f : Pkt) (ps : List Pkt) : String :=
+  String.intercalate " " (toString ps.length ::
+    (ps.map (fun p => s!"{(p.seq + M16 - f.seq % M16) % M16} {(p.ts + M32 - f.ts % M32) % M32}")))
 
-def runOps {R : Type} (A : Arith R) (pay : Payloader) : St R → Nat → List POp → List String
+def runOps {R : Type} (A : Arith R) (pay : Payloader) : St R → Nat → List POp → List (Option (List Pkt))
   | _, _, [] => []
   | s, pid, .sample d l dr :: rest =>
     let (n, pid') := payloadCount pay pid l
     let r := writeSample A s { dur := d, dropped := dr, n }
-    showPkts r.2 :: runOps A pay r.1 pid' rest
+    some r.2 :: runOps A pay r.1 pid' rest
   | s, pid, .padding k :: rest =>
     let r := generatePadding s k
-    showPkts r.2 :: runOps A pay r.1 pid rest
-  | s, pid, .bind :: rest => "b" :: runOps A pay (step A s .rebind).1 pid rest
-  | s, pid, .unbind :: rest => "u" :: runOps A pay (step A s .rebind).1 pid rest
+    some r.2 :: runOps A pay r.1 pid rest
+  | s, pid, _ :: rest => none :: runOps A pay (step A s .rebind).1 pid rest
+
+def markOf : POp → String
+  | .bind => "b" | .unbind => "u" | _ => "rb"
 
 def run (args : List String) : String :=
   match parseHist args with
   | none => "bad-op"
-  | some h => String.intercalate " | " (runOps f64 h.pay (init f64 h.rate h.ts0 h.seq0) 0 h.ops)
+  | some h =>
+    -- a random initial value is modelled as 0: every reported value is relative to the first packet
+    let outs := runOps f64 h.pay (init f64 h.rate (h.ts0.getD 0) (h.seq0.getD 0)) 0 h.ops
+    let first := (outs.filterMap id).flatten.head?
+    let tok := fun (fixed : Bool) (v : Nat) => if fixed then toString v else "r"
+    let hd := match first with
+      | some f => s!"first {tok h.seq0.isSome f.seq} {tok h.ts0.isSome f.ts}"
+      | none => "first - -"
+    let f := first.getD { seq := 0, ts := 0, marker := false }
+    let segs := (h.ops.zip outs).map (fun (o, r) => match r with | some ps => showPkts f ps | none => markOf o)
+    String.intercalate " | " (hd :: segs)
 
 /-! ### judge -/
 
@@ -112,49 +138,112 @@ def consecutive (first : Nat) : List Nat → Bool
   | [] => true
   | s :: rest => s == first % M16 && consecutive (first + 1) rest
 
-/-- `cnt` = sequence numbers consumed so far (seq0 + packets seen + drops), `nanos` = nominal duration
-    accounted for so far — both computed from the op line and the *observed* packet counts. -/
-def judgeOps (rate ts0 : Nat) : List POp → List (List String) → (cnt nanos : Nat) → (big : Bool) → String
-  | [], [], _, _, _ => "ok"
-  | .sample d _ dr :: ops, seg :: segs, cnt, nanos, big =>
-    -- binary64 holds integers exactly only up to 2^53: a single sample of 2^50 ticks or more is reported
-    -- under its own key
-    let big := big || (d * rate * dr) / G ≥ 2 ^ 50 || (d * rate) / G ≥ 2 ^ 50
+/-- signed reading of a difference mod 2^32 -/
+def signed32 (a b : Nat) : Int :=
+  let d := (a % M32 + M32 - b % M32) % M32
+  if d < M32 / 2 then (d : Int) else (d : Int) - (M32 : Int)
+
+/-- What the judge carries along a history.
+    `cnt`   sequence numbers consumed so far, counted from 0 (packets seen + drops) — from the op line and
+            the *observed* packet counts;
+    `nanos` nominal duration accounted for so far;
+    `anchor` position `cnt` and exact tick count of the first packet of the history: every reported value
+            is relative to that packet, so expectations are differences to the anchor;
+    `lo`/`hi` smallest / largest deviation of an observed relative timestamp from the exact one. -/
+structure J where
+  cnt : Nat := 0
+  nanos : Nat := 0
+  big : Bool := false
+  anchor : Option (Nat × Nat) := none
+  lo : Int := 0
+  hi : Int := 0
+
+/-- fixed initial values (from the options) and the first packet's absolute values, when known -/
+structure Abs where
+  seq0 : Option Nat
+  ts0 : Option Nat
+  firstSeq : Option Nat
+  firstTs : Option Nat
+
+def judgeOps (rate : Nat) (ab : Abs) : List POp → List (List String) → J → String
+  | [], [], _ => "ok"
+  | .sample d _ dr :: ops, seg :: segs, j =>
     match parsePkts seg with
     | none => "bad-judge"
     | some ps =>
+      -- binary64 holds integers exactly only up to 2^53: a single sample of 2^50 ticks or more is reported
+      -- under its own key
+      let big := j.big || (d * rate * dr) / G ≥ 2 ^ 50 || (d * rate) / G ≥ 2 ^ 50
       let seqs := ps.map (·.1)
       let tss := ps.map (·.2)
+      let ticks := ((j.nanos + d * dr) * rate) / G          -- exact ⌊total·rate/10⁹⌋ for this sample
+      let ticksNoDrop := (j.nanos * rate) / G
+      let anchor := match j.anchor with
+        | some a => some a
+        | none => if ps.isEmpty then none else some (j.cnt + dr, ticks)
+      let next : J := { cnt := j.cnt + dr + ps.length, nanos := j.nanos + d * dr + d, big, anchor, lo := j.lo, hi := j.hi }
       -- sentence 1
       if !(tss.all (fun t => some t == tss.head?)) then "violated timestamp-differs-within-sample"
-      -- sentence 3
-      else if !consecutive (cnt + dr) seqs then
-        (if dr > 0 && consecutive cnt seqs then "violated dropped-packets-not-skipped"
-         else "violated sequence-not-consecutive")
-      else
-        -- sentence 2
-        let want := ts0 + ((nanos + d * dr) * rate) / G
-        match tss.head? with
-        | some t =>
-          if t ≥ M32 then "violated timestamp-out-of-range"
-          else if near t want M32 then judgeOps rate ts0 ops segs (cnt + dr + ps.length) (nanos + d * dr + d) big
-          else if big then "violated timestamp-drift:sample-beyond-2^50-ticks"
-          else if dr > 0 && near t (ts0 + (nanos * rate) / G) M32 then "violated dropped-duration-not-skipped"
-          else "violated timestamp-drift"
-        | none => judgeOps rate ts0 ops segs (cnt + dr + ps.length) (nanos + d * dr + d) big
-  | .padding _ :: ops, seg :: segs, cnt, nanos, big =>
+      else match anchor, tss.head? with
+      | some (c0, k0), some t =>
+        -- sentence 3, on values relative to the first packet of the history …
+        if !consecutive (j.cnt + dr - c0) seqs then
+          (if dr > 0 && j.cnt ≥ c0 && consecutive (j.cnt - c0) seqs then "violated dropped-packets-not-skipped"
+           else "violated sequence-not-consecutive")
+        -- … and on the absolute value of that first packet when the initial sequence number was fixed
+        else if j.anchor.isNone && (match ab.seq0, ab.firstSeq with
+            | some s0, some f => f != (s0 + c0) % M16 | _, _ => false) then
+          (if dr > 0 && ab.firstSeq == ab.seq0.map (fun s0 => (s0 + j.cnt) % M16) then "violated dropped-packets-not-skipped"
+           else "violated sequence-not-consecutive")
+        else
+          -- sentence 2.  Initial timestamp fixed: within one tick of ts0 + ⌊total·rate/10⁹⌋.
+          let absBad := match ab.ts0, ab.firstTs with
+            | some t0, some f => !near (f + t) (t0 + ticks) M32
+            | _, _ => false
+          -- Always: some initial timestamp must put every sample within one tick, i.e. the deviations of the
+          -- relative timestamps from the exact relative tick counts span at most 2.
+          let rel := fun (x : Nat) => (x % M32 + M32 - k0 % M32) % M32
+          let dev := signed32 t (rel ticks)
+          let lo := if dev < j.lo then dev else j.lo
+          let hi := if dev > j.hi then dev else j.hi
+          if absBad || hi - lo > 2 then
+            (if big then "violated timestamp-drift:sample-beyond-2^50-ticks"
+             else if dr > 0 && rel ticksNoDrop != rel ticks &&
+                     ((let dv := signed32 t (rel ticksNoDrop); dv ≥ -1 && dv ≤ 1) ||
+                      (match ab.ts0, ab.firstTs with
+                       | some t0, some f => near (f + t) (t0 + ticksNoDrop) M32 | _, _ => false))
+               then "violated dropped-duration-not-skipped"
+             else "violated timestamp-drift")
+          else judgeOps rate ab ops segs { next with lo, hi }
+      | _, _ => judgeOps rate ab ops segs next
+  | .padding _ :: ops, seg :: segs, j =>
     match parsePkts seg with
     | none => "bad-judge"
     | some ps =>
-      if !consecutive cnt (ps.map (·.1)) then "violated sequence-not-consecutive"
-      else judgeOps rate ts0 ops segs (cnt + ps.length) nanos big
-  | .bind :: ops, ["b"] :: segs, cnt, nanos, big => judgeOps rate ts0 ops segs cnt nanos big
-  | .unbind :: ops, ["u"] :: segs, cnt, nanos, big => judgeOps rate ts0 ops segs cnt nanos big
-  | _, _, _, _, _ => "bad-judge"
+      let anchor := match j.anchor with
+        | some a => some a
+        | none => if ps.isEmpty then none else some (j.cnt, (j.nanos * rate) / G)
+      match anchor with
+      | some (c0, _) =>
+        if !consecutive (j.cnt - c0) (ps.map (·.1)) then "violated sequence-not-consecutive"
+        else if j.anchor.isNone && (match ab.seq0, ab.firstSeq with
+            | some s0, some f => f != (s0 + c0) % M16 | _, _ => false) then "violated sequence-not-consecutive"
+        else judgeOps rate ab ops segs { j with cnt := j.cnt + ps.length, anchor }
+      | none => judgeOps rate ab ops segs j
+  | .bind :: ops, ["b"] :: segs, j => judgeOps rate ab ops segs j
+  | .unbind :: ops, ["u"] :: segs, j => judgeOps rate ab ops segs j
+  | .rebindPrimary :: ops, ["rb"] :: segs, j => judgeOps rate ab ops segs j
+  | _, _, _ => "bad-judge"
 
 def judge (args out : List String) : String :=
   match parseHist args with
   | none => "bad-judge"
-  | some h => judgeOps h.rate h.ts0 h.ops (if h.ops.isEmpty then [] else splitSegs out) h.seq0 0 false
+  | some h =>
+    match splitSegs out with
+    | ["first", fs, ft] :: segs =>
+      -- the first packet's absolute values are reported exactly when the option fixed the initial value
+      if (fs.toNat?.isSome != h.seq0.isSome && fs != "-") || (ft.toNat?.isSome != h.ts0.isSome && ft != "-") then "bad-judge"
+      else judgeOps h.rate { seq0 := h.seq0, ts0 := h.ts0, firstSeq := fs.toNat?, firstTs := ft.toNat? } h.ops segs {}
+    | _ => "bad-judge"
 
 end WebrtcVerif.Drv.C28
